@@ -10,7 +10,8 @@ Record pj_auth_event := {
   pa_type : bytes;
   pa_state_key : option bytes;
   pa_content_ok : bool;             (* json.Unmarshal(content, &struct{room_version string}) *)
-  pa_room_version : bytes           (* empty = absent *)
+  pa_room_version : bytes;          (* empty = absent *)
+  pa_room_ok : bool                 (* the event belongs to the room being joined *)
 }.
 
 (* the event member of the send_join response *)
@@ -18,7 +19,10 @@ Record pj_remote_ev := {
   pr_parse_ok : bool;
   pr_membership : option bytes;     (* Membership(); None = error *)
   pr_room_id : bytes;
-  pr_state_key : option bytes
+  pr_state_key : option bytes;
+  (* Not looked at by PerformJoin (finding F87, recorded): is it the event PerformJoin sent, i.e.
+     same event ID?  No model function reads it; the specification oracle does. *)
+  pr_same_event : bool
 }.
 
 Record pj_input := {
@@ -66,7 +70,8 @@ Fixpoint contains_create (evs : list pj_auth_event) : bool :=
   | [] => false
   | e :: evs' =>
       if bytes_eqb (pa_type e) m_room_create &&
-         match pa_state_key e with Some k => bytes_eqb k [] | None => false end
+         match pa_state_key e with Some k => bytes_eqb k [] | None => false end &&
+         pa_room_ok e       (* create events of other rooms are passed over *)
       then
         if negb (pa_content_ok e) then false
         else version_known (match pa_room_version e with [] => v_1 | v => v end)
